@@ -413,7 +413,8 @@ def run_property(prop, tier, seed):
             real.append(v)
     # a known finding's guarded variant must pass (a different violation of the same clause still alarms):
     # guarded variants are ordinary units in the registry (name ends with _guarded) and are part of P['verus'].
-    proof_obl = [o for o in obligations if not o.get("bounded")]
+    known_obl = set(v["obligation"] for v in final_viol if v.get("known"))
+    proof_obl = [o for o in obligations if not o.get("bounded") and o["obligation"] not in known_obl]
     discharged = [o for o in proof_obl if o["status"] == "discharged"]
     known_failed = [o for o in proof_obl if o["status"] != "discharged"]
     items = []
@@ -446,7 +447,7 @@ def run_property(prop, tier, seed):
         "property_id": prop, "tier": tier, "seed": seed, "level": "proof",
         "coverage": {
             "obligations": len(proof_obl), "discharged": len(discharged),
-            "failed_known_findings": [o["obligation"] for o in known_failed if any(v.get("known") and v["obligation"] == o["obligation"] for v in final_viol)],
+            "failed_known_findings": sorted(known_obl),
             "checker_cmd": "; ".join(sorted(set(r["cmd"] for r in results.values() if r.get("cmd"))))[:4000] + ("; " + k_info.get("cmd", "") if k_info.get("cmd") else ""),
             "trusted_base": sorted(trusted),
             "functions_under_contract": items,
